@@ -46,4 +46,11 @@ def cases(seed=0, n=6):
     # a[lo:hi] = rows / scalar (NP-SLICE-STORE)
     for k, (lo, hi, val) in enumerate(((1, 3, [[7, 8], [9, 10]]), (0, 1, [[5, 6]]), (2, 2, 4), (None, 2, -1), (1, None, [[3, 3]]), (-2, None, [[1, 2], [3, 4]]))):
         out.append({'id': f'slicestore{k}', 'fn': 'np_slice_store', 'lo': lo, 'hi': hi, 'val': val})
+    # numpy.unique with return_index / return_inverse / return_counts on short vectors (NP-UNIQUE-SMALL)
+    for k, vals in enumerate(([3, 1, 3], [2, 2, 2], [5], [1, 2, 3, 0], [4, 1, 1, 4], [7, 3])):
+        out.append({'id': f'uniquesmall{k}', 'fn': 'np_unique_small', 'vals': vals})
+    for k, (a, b, n) in enumerate(((0.0, 1.0, 5), (-2.5, 7.25, 4), (3.0, 3.0, 3), (1.0, 2.0, 1), (1.0, 2.0, 0), (5.0, -5.0, 11))):
+        out.append({'id': f'linspace{k}', 'fn': 'np_linspace', 'a': a, 'b': b, 'n': n})
+    for k, (mask, n) in enumerate((([True, False, True], 4), ([False, False], 7), ([True], 0))):
+        out.append({'id': f'boolarith{k}', 'fn': 'np_bool_arith', 'mask': mask, 'n': n})
     return out
